@@ -497,3 +497,49 @@ def o1_recovery_order(ctx):
                 upd = True
     r.add(f, "the maximum is tracked by comparison with each id", upd or good, short_span(rb.span))
     return r
+
+
+def e2_merge_errors_abort(ctx):
+    r = RuleResult("E2", "Writer::merge aborts on the first failed disk operation: for every call in it that returns a storage Result (create, copy, hint append, flush/sync helper, selection), the Err edge leads only to an Err return — never on to the next entry, the unlink loop or Ok; the single tolerated error is NotFound from an unlink (P5c). An error that is logged and ignored lets the merge delete its inputs next to a truncated output", floor=8)
+    prog = ctx.prog
+    b = prog.one("storage::bitcask::Writer::merge")
+    f = fam_name(b)
+    r.analysed = [b.path]
+    for bb, t in b.calls():
+        if bb not in b.live_blocks() or "macro:" in (t.get("fn_exp") or ""):
+            continue
+        dty = t.get("dest_ty") or ""
+        if not dty.startswith("std::result::Result<") or not any(e in dty for e in ERR_TYPES):
+            continue
+        cn = strip_generics(t.get("callee")) or "?"
+        if cn in ("std::ops::Try::branch", "std::ops::FromResidual::from_residual", "std::result::Result::map_err", "std::convert::Into::into", "std::convert::From::from", "std::fs::remove_file"):
+            continue
+        short = cn.split("::")[-1]
+        if t["dest"]["l"] == 0 and not t["dest"]["p"]:
+            r.ok(f, "%s: result returned as is" % short, where(b, bb))
+            continue
+        site = (b.path, bb)
+        err_dsts = []
+        ok_e, err_e, sw = try_edges(b, bb)
+        if err_e:
+            err_dsts = [e.dst for e in err_e]
+        else:
+            for sb in b.live_blocks():
+                inf = b.switch_info(sb)
+                if inf and inf["kind"] == "variant":
+                    o = peel_var(inf["on"])
+                    if o[0] == "try":
+                        o = peel_var(o[1])
+                    if o[0] == "call" and o[3] == site:
+                        for e in b.succ[sb]:
+                            if any(l in ("Err", "Break") for l in inf["arms"].get(e.dst, [])):
+                                err_dsts.append(e.dst)
+        if not err_dsts:
+            r.bad(f, "%s: error edge" % short, where(b, bb), "the call's Err outcome is not separated from its Ok outcome (the result is not branched on)")
+            continue
+        classes = set()
+        for d in err_dsts:
+            classes |= {c for c, dd, rb in ret_classes(b, d, lambda e: e.kind == "unwind")}
+        good = bool(classes) and classes <= {"err"}
+        r.add(f, "%s: Err ⇒ merge returns Err" % short, good, where(b, bb), "" if good else "after this call failed the merge can still reach %s" % sorted(classes - {"err"}))
+    return r
